@@ -17,4 +17,8 @@ CHECKS = {
    technique='exhaustive small-scope enumeration + Hypothesis random cases, differential against an independent generalised-Buchi product semantics; every excluded state certified by a lasso re-evaluated with a separate path evaluator',
    text='LTL.modelcheck(K, A g) is compared with S minus R-STAR.E(not g): all structures <=2 states x all path formulas <=2 operators, all 3-state structures x <=1 operator (thorough), random structures <=5 states with <=3 temporal operators. Each exclusion carries a concrete ultimately periodic counterexample path verified by R-PATH.',
    note='Trusted: vp/ref.py (R-STAR, R-PATH). Formula size is bounded (<=3 temporal operators) because the tableau under test is exponential; defects needing larger closures are out of reach.'),
+ 'C03': dict(
+   technique='exhaustive small-scope enumeration + Hypothesis random cases, differential against an independent CTL* reference (recursive on quantifiers, generalised-Buchi product per quantifier)',
+   text='CTLS.modelcheck is compared with R-STAR on all structures <=2 states x {A g, E g: g path formula <=2 operators}, quantifier-nesting-2 formulas and Boolean combinations, a stride of the 3-state structures, and random structures <=4 states with <=3 temporal operators per quantifier and nesting <=2; all four dispatch routes (CTL, LTL, not-A-not, fresh atom) are populated by construction and counted.',
+   note='Trusted: vp/ref.py R-STAR. Atoms are p,q only; collisions between user atoms and the checker-generated atom names are outside the decided scope (DESIGN 5.3).'),
 }
